@@ -85,15 +85,16 @@ class Builder:
         self.memo = {}
         self.tokens = {}
 
-    def callback(self, cb):
+    def callback(self, cb, recv=None):
         ghost, rec = self.ghost, self.rec
         eff = cb.effect
+        pre = (recv,) if getattr(cb, 'with_self', False) and recv is not None else ()
 
         def call(*args, **kw):
             if eff is None:
                 return None
             try:
-                return eff(ghost, *args, **kw)
+                return eff(ghost, *pre, *args, **kw)
             except AssertionError as e:
                 tb = traceback.extract_tb(e.__traceback__)[-1]
                 rec.violations.append(f'ghost assertion of {cb.name} failed at {tb.name}:{tb.lineno}: {tb.line}')
@@ -127,7 +128,7 @@ class Builder:
             r = bytearray(self.build(d['__bytearray__']))
         elif '__list__' in d:
             items = [self.build(x) for x in d['__list__']]
-            r = collections.deque(items) if d.get('flavor') == 'deque' else items
+            r = collections.deque(items, maxlen=d.get('maxlen')) if d.get('flavor') == 'deque' else items
         elif '__dict__' in d:
             r = {self.build(k): self.build(v) for k, v in d['__dict__']}
         elif '__map__' in d:
@@ -191,7 +192,7 @@ class Builder:
         if mdl is not None:
             for mname, m in mdl.methods.items():
                 if isinstance(m, C.Callback):
-                    object.__setattr__(obj, mname, self.callback(m))
+                    object.__setattr__(obj, mname, self.callback(m, recv=obj))
         return obj
 
     def build_map(self, m, ft):
@@ -200,6 +201,12 @@ class Builder:
         for k, rec in m.items():
             o = cls.__new__(cls)
             for n, v in rec.items():
+                if n.endswith('?'):
+                    continue  # is-None companion column of an optional field
+                if rec.get(n + '?') is True:
+                    v = None
+                elif isinstance(v, int) and isinstance(getattr(self.reg.models[ft.elem].fields.get(n), 't', self.reg.models[ft.elem].fields.get(n)), C.Opaque):
+                    v = f'opaque#{v}'
                 if isinstance(v, bool) and isinstance(getattr(self.reg.models[ft.elem].fields.get(n), '__class__', None), type) and _is_event_field(self.reg.models[ft.elem].fields.get(n)):
                     ev = asyncio.Event()
                     if v:
@@ -306,10 +313,15 @@ def run_native(top, registry, state, extra_check=None):
     if getattr(top, 'native_setup', None):
         top.native_setup(env)
         params = {n: env[n] for n in params}
+    _teardown = (getattr(top, 'extra', {}) or {}).get('native_teardown')
     try:
         if top.requires is not None and not all(flatten(call_clause(top.requires, env))):
+            if _teardown:
+                _teardown(env)
             return {'outcome': 'precondition-false'}
     except Exception as e:
+        if _teardown:
+            _teardown(env)
         return {'outcome': 'error', 'detail': f'requires: {e!r}'}
     # entry by entry: an object that cannot be deep-copied (pyee emitters) must not make `old.ghost` alias the live ghost
     old = types.SimpleNamespace(**{k: snapshot(v) for k, v in env.items()})
@@ -399,7 +411,9 @@ def run_native(top, registry, state, extra_check=None):
             base = (getattr(f, '__module__', '') or '').split('.')[0]
             fname = getattr(f, '__name__', None)
             stub = b.callback(cb)
-            for pname in {base, base.lstrip('_')}:  # C accelerators live in _asyncio, the code says asyncio.X
+            # C accelerators live in _asyncio, the code says asyncio.X; a function of a repo/library submodule
+            # (bumble.crypto.f4) is reached through that module's attribute
+            for pname in {base, base.lstrip('_'), getattr(f, '__module__', '') or ''}:
                 pkg = sys.modules.get(pname)
                 if pkg is not None and fname and getattr(pkg, fname, None) is f:
                     patches.append((pkg, fname, f))
@@ -429,6 +443,8 @@ def run_native(top, registry, state, extra_check=None):
             if (getattr(top, 'extra', {}) or {}).get('decorators_ok') and hasattr(fn, '__wrapped__'):
                 # the contract ignores the decorator (decorators_ok): replay the undecorated function
                 fn = fn.__wrapped__
+            if isinstance(fn, property):
+                fn = fn.fset  # the contract of a property is the contract of its setter (the last definition, see source.find_def)
             kwargs = dict(params)
             if 'self' in kwargs:
                 selfv = kwargs.pop('self')
@@ -474,6 +490,9 @@ def run_native(top, registry, state, extra_check=None):
             pass
         for owner, attr, orig in patches:
             setattr(owner, attr, orig)
+        teardown = (getattr(top, 'extra', {}) or {}).get('native_teardown')
+        if teardown:
+            teardown(env)  # undo what native_setup installed outside the objects of this replay (e.g. a patched class attribute)
     if isinstance(exc, RuntimeError) and 'no running event loop' in str(exc):
         return {'outcome': 'error', 'detail': 'the function needs a running asyncio loop (task-spawning decorator): not runnable by the native harness'}
     if type(exc).__name__ == 'ReplayTimeout':
@@ -592,7 +611,7 @@ def _leaves(d, path=()):
         yield path, d
     elif isinstance(d, dict):
         for k, v in d.items():
-            if k in ('__obj__', 'flavor'):
+            if k in ('__obj__', 'flavor', 'maxlen'):
                 continue
             yield from _leaves(v, path + (k,))
     elif isinstance(d, (list, tuple)):
